@@ -125,6 +125,8 @@ func runAsync(ch *simrt.Chooser, opt Options) RunResult {
 	res.Steps = out.Steps
 	res.Finger = out.Fingerprint
 	res.NonTrivial = out.Goroutines >= 3 && out.Switches >= 2
+	res.Counters["sched:context-switches"] += out.Switches
+	res.Counters["sched:goroutines-peak-sum"] += out.Goroutines
 	for k, v := range out.Probes {
 		res.Counters["probe:"+k] += v
 	}
@@ -152,7 +154,11 @@ func runAsync(ch *simrt.Chooser, opt Options) RunResult {
 		res.Evals += c.evals
 		res.Failures = append(res.Failures, c.fails...)
 		for k, v := range c.ops {
-			res.Counters["op:"+k] += v
+			if strings.HasPrefix(k, "probe:") {
+				res.Counters[k] += v
+			} else {
+				res.Counters["op:"+k] += v
+			}
 		}
 		for _, call := range c.calls {
 			res.Evals++
